@@ -18,7 +18,7 @@ def run(ctx):
     ctx.coverage["rule"] = ("TLC draws (join query, left table, right table) under its seed: kinds inner/left/right/outer/lookup x 5 ON conditions (key equality either way, "
                             "extra conjunct on either side, key expression) x 5 WHERE clauses, tables of 0..3 rows with keys in {NULL,0,1} (duplicates allowed); both "
                             "optimiser settings must equal the SQL join (NULL keys never match, unmatched outer rows once, NULL padded); 16 (thorough: 60) inner / lookup / LEFT "
-                            "cases re-run with the left table repeated to more than 10 000 rows (K x L JOIN R = K x (L JOIN R)). Node level: every script pair "
+                            "cases re-run with the left table repeated to more than 30 000 rows (K x L JOIN R = K x (L JOIN R)). Node level: every script pair "
                             "<= 2 messages per side under every interleaving and close order. distinct_nontrivial = cases with non-empty input + join runs validated")
 
 
